@@ -216,7 +216,7 @@ def sami_neighbours(ctx, report):
     """SAMIWriter._find_closest_sync folded on stub documents: for every set of existing sync times
     drawn from {100, 200, 300, 400} (all 16 subsets, in document order) and every new time in
     {50, 150, 250, 350, 450}, the new sync must be placed right after the LAST earlier sync, else
-    right before the FIRST later one, else nowhere."""
+    right before the FIRST later one, else - the document has no sync yet - appended to the body."""
     import itertools
     from ..core.constfold import Folder, Stub
     fn = ctx.index.get_function("pycaption/sami.py", "SAMIWriter._find_closest_sync")
@@ -240,20 +240,23 @@ def sami_neighbours(ctx, report):
                     if name != "sync":
                         return []
                     return [tg for tg in tags if start is None or folder.call_value(start, [tg.attrs["start"]])]
-                doc = Stub("document", {}, {"find_all": find_all,
-                                            "new_tag": lambda name, **kw: Stub("new-sync", dict(kw), {}),
-                                            "find": lambda *a, **k: None})
+                body = Stub("body", {}, {"append": lambda new: placed.append(("appended to the body", None))})
+                doc = Stub("document", {"body": body}, {"find_all": find_all,
+                                                        "new_tag": lambda name, **kw: Stub("new-sync", dict(kw), {}),
+                                                        "find": lambda name=None, *a, **k: body if name == "body" else None})
                 try:
                     folder.call_function(fn, [doc, t], self_value=Stub("writer", {}, cls=wcls))
                 except AnalysisError as e:
                     raise AnalysisError(f"_find_closest_sync cannot be folded: {e}")
                 earlier = [v for v in existing if v < t]
                 later = [v for v in existing if v > t]
-                want = [("after", earlier[-1])] if earlier else ([("before", later[0])] if later else [])
+                # (no sync at all yet - the languages written so far have no captions: it is the document's first sync.
+                # The first version of this oracle said "nowhere" and so encoded defect F35.)
+                want = [("after", earlier[-1])] if earlier else ([("before", later[0])] if later else [("appended to the body", None)])
                 if placed != want:
                     bad.append({"existing_syncs": list(existing), "new_time": t, "placed": placed, "required": want})
     report.check(not bad, "R-NEIGHBOUR", fn,
-                 "a new sync goes right after the LAST earlier sync, else right before the FIRST later one",
+                 "a new sync goes right after the LAST earlier sync, else right before the FIRST later one, else into the empty body",
                  {"documents_folded": n, "mismatches": bad[:3],
                   "why": "any other position puts a sync out of time order: players show the cue at the wrong moment"}, "5")
 
